@@ -11,6 +11,7 @@
 #include <cstdio>
 #include <fstream>
 #include <iostream>
+#include <optional>
 #include <sstream>
 #include <string>
 #include <vector>
@@ -103,7 +104,22 @@ struct Provider : public resolvo::DependencyProvider {
     resolvo::Slice<VersionSetId> version_sets_in_union(VersionSetUnionId u) override {
         return {unions[u.id].data(), unions[u.id].size()};
     }
+    // Answers for even ids are built once, kept by the provider and handed out as
+    // copies (the vectors are then shared: reference count 2 when Rust consumes
+    // them); answers for odd ids are built afresh on every call (reference count 1).
+    std::vector<std::optional<resolvo::Candidates>> stored_cands;
+    std::vector<std::optional<resolvo::Dependencies>> stored_deps;
+    std::vector<std::optional<resolvo::Vector<SolvableId>>> stored_filter;
+
     resolvo::Candidates get_candidates(NameId n) override {
+        if (n.id % 2 == 0) {
+            if (stored_cands.size() <= n.id) stored_cands.resize(n.id + 1);
+            if (!stored_cands[n.id]) stored_cands[n.id] = build_candidates(n);
+            return *stored_cands[n.id];
+        }
+        return build_candidates(n);
+    }
+    resolvo::Candidates build_candidates(NameId n) {
         resolvo::Candidates c;
         c.favored = nullptr;   // the generated struct has no constructor
         c.locked = nullptr;
@@ -137,6 +153,14 @@ struct Provider : public resolvo::DependencyProvider {
         return out;
     }
     resolvo::Dependencies get_dependencies(SolvableId s) override {
+        if (s.id % 2 == 0) {
+            if (stored_deps.size() <= s.id) stored_deps.resize(s.id + 1);
+            if (!stored_deps[s.id]) stored_deps[s.id] = build_dependencies(s);
+            return *stored_deps[s.id];
+        }
+        return build_dependencies(s);
+    }
+    resolvo::Dependencies build_dependencies(SolvableId s) {
         resolvo::Dependencies d;
         for (auto &r : solv[s.id].reqs) d.requirements.push_back(requirement(r));
         for (auto v : solv[s.id].cons) d.constrains.push_back(VersionSetId{v - 1});
